@@ -6,6 +6,7 @@ from props.cli_gen import Gen, HEADER, SPECIAL_ATOMS
 
 ID = 'C19'
 IMPORTS = ['Cli.Comment', 'Cli.Cli', 'Cli.RunCli']
+from lib.pyrepr_check import cps as _cps, g_cps as _g_cps, printable_table as _printable_table
 THEOREMS = ['C19_comment_every_line', 'C19_comment_lines_content', 'C19_strip_comment_lines',
             'C19_debug_only_comments', 'C19_cli_equals_library', 'C19_sources_as_on_disk',
             'C19_cli_first_failure', 'C19_exit_status', 'C19_missing_source']
@@ -319,26 +320,34 @@ def _g_rd(t):
     return 'RBad' if t is None else '(RText %s)' % g_str(t)
 
 def model_expr(case):
+    """cli cases: the model command line (Cli/Cli.v) over the MODEL compiler (Comp/CompileText.v compile_text, evaluated in
+    Coq on the source texts of the case).  From the implementation's library only: how a refused text is refused."""
     if case['kind'] == 'comment':
         return '(run_comment %s)' % g_str(case['msg'])
     if case['kind'] == 'strip':
         return '(run_strip %s)' % g_str(case['text'])
-    tbl = []
-    for t in _texts_of(case):
+    fails = []
+    texts = _texts_of(case)
+    allcps = set()
+    for t in texts:
         r = _library(t)
-        if r[0] == 'ok' and not r[1].startswith(HEADER + '\n'):
-            return None          # reported by the oracle
+        allcps.update(_cps(t))
+        if r[0] == 'ok':
+            continue
         if r[0] == 'err' and not (isinstance(r[1], int) and isinstance(r[2], int) and r[1] >= 0 and r[2] >= 0):
             return None
-        tbl.append(g_pair(g_str(t), _g_cres(r)))
+        fails.append(g_pair(_g_cps(_cps(t)), _g_cres(r)))
+    ptbl = _printable_table(sorted(allcps))
     files = g_list([g_pair(g_str(n), _g_rd(t)) for n, t in case['files']])
     stdin = _g_rd(case['stdin'][1] if case['stdin'][0] == 'text' else None)
     srcs = g_list([g_str(s) for s in case['sources']])
-    return '(run_cli %s %s %s %s %s)' % (g_list(tbl), g_str(case['outfile']), srcs, files, stdin)
+    return '(run_cli_text [%s] %s %s %s %s %s %s)' % ('; '.join('%d%%N' % x for x in ptbl), g_list(fails),
+        g_list([_g_cps(_cps(t)) for t in texts]), g_str(case['outfile']), srcs, files, stdin)
 
 # ------------------------------------------------------------------ judging
 
 def _model_result(mo, mode, dfn):
+    mo = mo[1]
     assert mo[0] == 'cli'
     end, status, stdout, f = mo[1 + (0 if mode == 'stdout' else 2) + (1 if dfn else 0)]
     if f and f[1] == ['same']:
@@ -360,6 +369,11 @@ def compare(case, io_, mo):
         if io_['plines'] != mo[2]:
             return 'universal-newline lines differ from the model plines'
         return None
+    # the model compiler and the implementation's library must agree on which texts compile
+    for (t, r), mv in zip(io_['lib'], mo[0]):
+        iv = 'ok' if r[0] == 'ok' else ('err' if r[0] == 'err' else 'crash')
+        if iv != mv[0]:
+            return 'library: %s (%s), model compiler: %s, for the text %r' % (iv, r[-1] if iv != 'ok' else 'text', mv[0], t[:200])
     for run in io_['runs']:
         d, p, g, f = run['flags']
         dfn = bool(d or f)
